@@ -142,6 +142,23 @@ pub fn search(seed: u64, budget: &Budget, thorough: bool, which: &str) -> (u64, 
             }
         }
     }
+    // long runs of one symbol with sampling rates above 64: whole checkpoint blocks consist of the queried symbol
+    for &n in &[130usize, 400] {
+        for &(a, b) in &[(b'a', b'b'), (b'b', b'a')] {
+            let mut t = vec![a; n];
+            t[n / 3] = b;
+            t.push(b'$');
+            for &k in &[65u32, 128, 200] {
+                tried += 1;
+                if which == "C04" {
+                    if let Err(e) = check_tables(&t, k) { return (tried, Some((format!("what=tables k={} text={}", k, hex(&t)), e))); }
+                } else {
+                    let p = vec![a, a];
+                    if let Err(e) = check_search(&t, k, &p) { return (tried, Some((format!("what=search k={} text={} pat={}", k, hex(&t), hex(&p)), e))); }
+                }
+            }
+        }
+    }
     let rounds = if thorough { 100000 } else { 1500 };
     for _ in 0..rounds {
         if !budget.left() { break; }
